@@ -328,6 +328,32 @@ class CFG:
                     dq.append((s, 0))
         return reached_end
 
+    def reaches(self, pa, pb, is_stop=None):
+        """Is there a path from just after position pa to position pb on which no element satisfies is_stop?
+        (pb itself is not tested against is_stop.)"""
+        if pa is None or pb is None:
+            return False
+        fn = self.fn
+        seen = set()
+        dq = deque([(pa[0], pa[1] + 1)])
+        while dq:
+            b, i = dq.popleft()
+            blk = self.blocks[b]
+            cut = False
+            for j in range(i, len(blk["e"])):
+                if (b, j) == tuple(pb):
+                    return True
+                if is_stop is not None and is_stop(fn.nodes[blk["e"][j]]):
+                    cut = True
+                    break
+            if cut:
+                continue
+            for s in self.succ[b]:
+                if s not in seen:
+                    seen.add(s)
+                    dq.append((s, 0))
+        return False
+
 
 class Function:
     def __init__(self, raw, unit):
